@@ -15,7 +15,7 @@ RULES = {
     'C05.R3': 'node functions above a cached node never change silently: internal writers of .aff reach terminals only, or reset the state of every node they rewrite',
     'C05.R4': 'only a child with feasible state is forwarded past a skipped decision',
 }
-FLOORS = {'C05.R7': 1, 'C05.R6': 2, 'C05.R5': 8, 'C05.R1': 8, 'C05.R2': 3, 'C05.R3': 6, 'C05.R4': 1}
+FLOORS = {'C05.R7': 1, 'C05.R6': 5, 'C05.R5': 8, 'C05.R1': 8, 'C05.R2': 3, 'C05.R3': 6, 'C05.R4': 1}
 EXPLANATION = 'No unchecked point and no unsupported verdict can enter a cache, and no operation invalidates a cache without clearing it.'
 DOES_NOT_DECIDE = 'the numeric margin of contains (1e-8) against accumulated rounding of later compositions'
 
